@@ -10,6 +10,8 @@ import (
 	"math"
 	"strings"
 	"sync"
+	"sync/atomic"
+	"time"
 	"unicode/utf8"
 
 	"golang.org/x/tools/go/ssa"
@@ -94,6 +96,7 @@ type frame struct {
 	caller    *frame
 	curInstr  ssa.Instruction
 	status    int
+	count     *int
 }
 
 type goPanic struct {
@@ -132,7 +135,7 @@ type Exec struct {
 	nobj    int
 	undo    []undoRec
 	stats   ExecStats
-	funcs   map[string]int // functions executed -> instruction count
+	funcs   map[*ssa.Function]*int // functions executed -> instruction count
 
 	// per path
 	pc        []*Term
@@ -169,6 +172,10 @@ type Exec struct {
 	md5Calls    []md5Call
 	floatArgs   []*Term
 	obs         []obsRec
+	arrayMode   bool
+	obligation  bool
+	busy        time.Duration
+	stopFlag    *int32
 
 	pushWork func(w *WorkItem)
 }
@@ -344,7 +351,11 @@ func (e *Exec) callSSA(fn *ssa.Function, args []Value, env []Value) (result Valu
 	if e.cur.depth > 400 {
 		e.violation("bound", "call depth > 400", "recursion depth bound exceeded in "+fn.String())
 	}
-	e.funcs[fn.String()] += 0
+	fr.count = e.funcs[fn]
+	if fr.count == nil {
+		fr.count = new(int)
+		e.funcs[fn] = fr.count
+	}
 	th := e.cur
 	defer func() {
 		th.depth--
@@ -407,7 +418,10 @@ func (e *Exec) runBlocks(fr *frame) {
 		n := int64(len(blk.Instrs))
 		e.steps += n
 		e.stats.Steps += n
-		e.funcs[fr.fn.String()] += int(n)
+		*fr.count += int(n)
+		if e.stopFlag != nil && atomic.LoadInt32(e.stopFlag) != 0 {
+			panic(&pathAbort{status: "stopped", msg: "run stopped (limit reached)"})
+		}
 		if e.steps > e.budget {
 			e.violation("bound", "instruction budget", fmt.Sprintf("instruction budget %d exceeded (unwinding bound) in %s", e.budget, fr.fn))
 		}
